@@ -217,6 +217,9 @@ func genCache(r *rng, tier string) interface{} {
 			if r.intn(40) == 0 {
 				kind = "loop"
 			}
+			if r.intn(25) == 0 {
+				kind = "dir"
+			}
 			in.Ops = append(in.Ops, cacheOp{K: "corrupt", Site: r.intn(3), KB: pick(r, tuples), Kind: kind})
 		default:
 			in.Ops = append(in.Ops, cacheOp{K: "foreign"})
